@@ -57,6 +57,10 @@ const (
 
 	vfMqPublishPipeline = "vf-publish-pipeline"
 	vfMqFenceKey        = "vf-fence"
+	vfMqFillerKey       = "vf-filler"
+	// vfMqDisconnectPipeline: the pipeline of the Disconnect packet type (only in rigs built with
+	// vfMqNewRigGate); it returns at once unless the harness armed it for a client id
+	vfMqDisconnectPipeline = "vf-disconnect-pipeline"
 )
 
 // ---------------------------------------------------------------------------------------------
@@ -93,6 +97,7 @@ type vfMqStore struct {
 	pending []map[string]*string // delete events not yet delivered to the watcher
 	watched bool
 	fenced  int // highest fence number the store loop has applied
+	blocked int // puts waiting at the gate
 }
 
 var _ storage = (*vfMqStore)(nil)
@@ -137,15 +142,32 @@ func (s *vfMqStore) put(key, value string) error {
 	}
 	s.mu.Lock()
 	g := s.gate
+	if g != nil {
+		s.blocked++
+	}
 	s.mu.Unlock()
 	if g != nil {
 		<-g
+		s.mu.Lock()
+		s.blocked--
+		s.mu.Unlock()
+	}
+	if key == sessionStoreKey(vfMqFillerKey) {
+		// a record of "some other session" that only occupied the queue (FillStoreQueue)
+		return nil
 	}
 	s.mu.Lock()
 	s.data[key] = value
 	s.puts++
 	s.mu.Unlock()
 	return nil
+}
+
+// blockedPuts: how many puts wait at the gate right now.
+func (s *vfMqStore) blockedPuts() int {
+	s.mu.Lock()
+	defer s.mu.Unlock()
+	return s.blocked
 }
 
 // delete removes the key; like etcd it produces a watch event only when the key existed. The
@@ -260,13 +282,96 @@ func (r *vfMqRecorder) of(cid string) []vfMqBackendRec {
 	return out
 }
 
-type vfMqMapper struct{ rec *vfMqRecorder }
+type vfMqMapper struct {
+	rec  *vfMqRecorder
+	gate *vfMqDiscGate
+}
 
 func (m *vfMqMapper) GetHandler(name string) (context.Handler, bool) {
 	if name == vfMqPublishPipeline {
 		return m.rec, true
 	}
+	if name == vfMqDisconnectPipeline && m.gate != nil {
+		return m.gate, true
+	}
 	return nil, false
+}
+
+// vfMqDiscGate stands in for a pipeline configured for the Disconnect packet type (Client.close
+// runs it when a connection is over: "notify a backend that the device went offline"). Such a
+// pipeline may take any amount of time. Armed for a client id, the next run for that id parks
+// until the harness releases it; every other run returns at once.
+type vfMqDiscGate struct {
+	mu     sync.Mutex
+	armed  map[string]bool
+	parked map[string]chan struct{} // cid -> closed on release
+	runs   int
+}
+
+func (g *vfMqDiscGate) Handle(ctx *context.Context) string {
+	req, ok := ctx.GetRequest(context.DefaultNamespace).(*mqttprot.Request)
+	if !ok || req.PacketType() != mqttprot.DisconnectType {
+		return ""
+	}
+	cid := req.Client().ClientID()
+	g.mu.Lock()
+	g.runs++
+	var ch chan struct{}
+	if g.armed[cid] {
+		delete(g.armed, cid)
+		ch = make(chan struct{})
+		g.parked[cid] = ch
+	}
+	g.mu.Unlock()
+	if ch != nil {
+		<-ch
+	}
+	return ""
+}
+
+// Arm: the next Disconnect pipeline run for cid parks.
+func (g *vfMqDiscGate) Arm(cid string) {
+	g.mu.Lock()
+	g.armed[cid] = true
+	g.mu.Unlock()
+}
+
+// WaitParked waits until a run for cid is parked.
+func (g *vfMqDiscGate) WaitParked(cid string) error {
+	deadline := time.Now().Add(vfMqWait)
+	for {
+		g.mu.Lock()
+		_, ok := g.parked[cid]
+		g.mu.Unlock()
+		if ok {
+			return nil
+		}
+		if time.Now().After(deadline) {
+			return fmt.Errorf("the Disconnect pipeline was not run for %q within %v", cid, vfMqWait)
+		}
+		time.Sleep(200 * time.Microsecond)
+	}
+}
+
+// Release lets the parked run for cid (if any) return; it also disarms cid.
+func (g *vfMqDiscGate) Release(cid string) {
+	g.mu.Lock()
+	delete(g.armed, cid)
+	if ch, ok := g.parked[cid]; ok {
+		close(ch)
+		delete(g.parked, cid)
+	}
+	g.mu.Unlock()
+}
+
+func (g *vfMqDiscGate) releaseAll() {
+	g.mu.Lock()
+	g.armed = map[string]bool{}
+	for cid, ch := range g.parked {
+		close(ch)
+		delete(g.parked, cid)
+	}
+	g.mu.Unlock()
 }
 
 // ---------------------------------------------------------------------------------------------
@@ -339,6 +444,38 @@ type vfMqRig struct {
 	peerMu   sync.Mutex
 	peerURLs []string
 	httpSrv  *httptest.Server
+	// DiscGate: the parkable Disconnect pipeline (nil unless built with vfMqNewRigGate(.., true))
+	DiscGate *vfMqDiscGate
+}
+
+// FillStoreQueue stalls the store (puts block at the gate) and fills the session manager's
+// record queue to the brim with records of "other sessions" (filler records the store ignores):
+// one put in flight and cap(storeCh) records queued, which is the state a broker with many active
+// clients reaches when etcd stalls. StoreFence (release + fence) ends it.
+func (r *vfMqRig) FillStoreQueue() error {
+	r.store.hold()
+	ch := r.broker.sessMgr.storeCh
+	deadline := time.Now().Add(vfMqWait)
+	for {
+		select {
+		case ch <- SessionStore{key: vfMqFillerKey, value: "x"}:
+			continue
+		default:
+		}
+		// full right now; the store loop may still take one more record
+		if r.store.blockedPuts() >= 1 && len(ch) == cap(ch) {
+			return nil
+		}
+		if time.Now().After(deadline) {
+			return errors.New("the session store queue could not be filled")
+		}
+		time.Sleep(100 * time.Microsecond)
+	}
+}
+
+// InSessionStore reports whether some goroutine is inside Session.store (blocked on the full queue).
+func vfMqInSessionStore() bool {
+	return strings.Contains(vfMqStacks(), vfMqPkg+"(*Session).store(")
 }
 
 // peers is what the broker's memberURL function returns.
@@ -356,13 +493,20 @@ type vfMqTransferLog struct {
 	inner     http.RoundTripper
 	attempts  int64
 	transport int64 // RoundTrip returned an error
+	// hosts of members the harness made unreachable on purpose, and the failures they produced
+	deadHosts   sync.Map
+	deadRefused int64
 }
 
 func (l *vfMqTransferLog) RoundTrip(req *http.Request) (*http.Response, error) {
 	atomic.AddInt64(&l.attempts, 1)
 	resp, err := l.inner.RoundTrip(req)
 	if err != nil {
-		atomic.AddInt64(&l.transport, 1)
+		if _, dead := l.deadHosts.Load(req.URL.Host); dead {
+			atomic.AddInt64(&l.deadRefused, 1) // the member the harness made unreachable
+		} else {
+			atomic.AddInt64(&l.transport, 1)
+		}
 	}
 	return resp, err
 }
@@ -377,10 +521,51 @@ var (
 // member's memberURL function reports the endpoints of all the others.
 type vfMqCluster struct {
 	Rigs []*vfMqRig
+	// dead: a member that is down. Its endpoint is a loopback port the harness keeps for itself
+	// (nobody else can get it meanwhile) and on which every connection is reset at once, so a
+	// request forwarded to it fails in the HTTP transport like one to an unreachable machine.
+	dead     net.Listener
+	deadDone chan struct{}
 }
 
+func (cl *vfMqCluster) startDead() (string, error) {
+	var l net.Listener
+	var err error
+	for attempt := 0; attempt < 40; attempt++ {
+		if attempt > 0 {
+			time.Sleep(time.Duration(attempt) * 50 * time.Millisecond)
+		}
+		if l, err = net.Listen("tcp", "127.0.0.1:0"); err == nil {
+			break
+		}
+	}
+	if err != nil {
+		return "", err
+	}
+	cl.dead, cl.deadDone = l, make(chan struct{})
+	go func() {
+		defer close(cl.deadDone)
+		for {
+			c, err := l.Accept()
+			if err != nil {
+				return
+			}
+			if tc, ok := c.(*net.TCPConn); ok {
+				tc.SetLinger(0)
+			}
+			c.Close()
+		}
+	}()
+	vfMqTransfers.deadHosts.Store(l.Addr().String(), true)
+	return "http://" + l.Addr().String() + "/apis/v1/mqttproxy/vfmq/topics/publish", nil
+}
+
+// vfMqDeadRefusals: forwarded requests that failed at a deliberately dead member so far.
+func vfMqDeadRefusals() int64 { return atomic.LoadInt64(&vfMqTransfers.deadRefused) }
+
 // vfMqNewCluster starts n members. order[i] lists the other members in the order member i's
-// member list reports them (nil: ascending).
+// member list reports them (nil: ascending); the index n in such a list stands for an additional
+// member that is down (startDead).
 func vfMqNewCluster(n int, order [][]int) (*vfMqCluster, error) {
 	vfMqTransfersOnce.Do(func() { http.DefaultClient.Transport = vfMqTransfers })
 	cl := &vfMqCluster{}
@@ -408,10 +593,27 @@ func vfMqNewCluster(n int, order [][]int) (*vfMqCluster, error) {
 		r.httpSrv = &httptest.Server{Listener: l, Config: &http.Server{Handler: http.HandlerFunc(r.broker.httpTopicsPublishHandler)}}
 		r.httpSrv.Start()
 	}
+	deadURL := ""
+	for _, o := range order {
+		for _, j := range o {
+			if j == n && deadURL == "" {
+				u, err := cl.startDead()
+				if err != nil {
+					cl.Close()
+					return nil, err
+				}
+				deadURL = u
+			}
+		}
+	}
 	for i, r := range cl.Rigs {
 		var urls []string
 		if order != nil {
 			for _, j := range order[i] {
+				if j == n {
+					urls = append(urls, deadURL)
+					continue
+				}
 				urls = append(urls, cl.Rigs[j].httpSrv.URL+"/apis/v1/mqttproxy/vfmq/topics/publish")
 			}
 		} else {
@@ -441,25 +643,39 @@ func (cl *vfMqCluster) Close() {
 	for _, r := range cl.Rigs {
 		r.Close()
 	}
+	if cl.dead != nil {
+		cl.dead.Close()
+		<-cl.deadDone
+		vfMqTransfers.deadHosts.Delete(cl.dead.Addr().String())
+		cl.dead = nil
+	}
 	if t, ok := http.DefaultTransport.(*http.Transport); ok {
 		t.CloseIdleConnections()
 	}
 }
 
-func vfMqNewRig(spec *Spec) (*vfMqRig, error) {
+func vfMqNewRig(spec *Spec) (*vfMqRig, error) { return vfMqNewRigGate(spec, false) }
+
+// vfMqNewRigGate: withDisconnectPipeline configures a pipeline for the Disconnect packet type
+// (r.DiscGate); without it the broker is configured as in vfMqNewRig.
+func vfMqNewRigGate(spec *Spec, withDisconnectPipeline bool) (*vfMqRig, error) {
 	if spec == nil {
 		spec = &Spec{}
 	}
 	spec.Name, spec.EGName, spec.Port = "vfmq", "vfmq", 0
 	spec.Rules = []*Rule{{When: &When{PacketType: Publish}, Pipeline: vfMqPublishPipeline}}
 	r := &vfMqRig{store: vfMqNewStore(), rec: &vfMqRecorder{}}
+	if withDisconnectPipeline {
+		spec.Rules = append(spec.Rules, &Rule{When: &When{PacketType: Disconnect}, Pipeline: vfMqDisconnectPipeline})
+		r.DiscGate = &vfMqDiscGate{armed: map[string]bool{}, parked: map[string]chan struct{}{}}
+	}
 	// newBroker returns nil when it cannot listen; on a machine where many checks open sockets
 	// at once the ephemeral port range can be exhausted for a moment: retry for a while
 	for attempt := 0; attempt < 40 && r.broker == nil; attempt++ {
 		if attempt > 0 {
 			time.Sleep(time.Duration(attempt) * 50 * time.Millisecond)
 		}
-		r.broker = newBroker(spec, r.store, &vfMqMapper{rec: r.rec}, func(string, string) ([]string, error) { return r.peers(), nil })
+		r.broker = newBroker(spec, r.store, &vfMqMapper{rec: r.rec, gate: r.DiscGate}, func(string, string) ([]string, error) { return r.peers(), nil })
 	}
 	if r.broker == nil {
 		return nil, errors.New("newBroker returned nil (cannot listen)")
@@ -470,11 +686,21 @@ func vfMqNewRig(spec *Spec) (*vfMqRig, error) {
 		return nil, errors.New("listener is not TCP")
 	}
 	r.addr = fmt.Sprintf("127.0.0.1:%d", ta.Port)
+	// The fence and filler records travel through the session store loop like the records of live
+	// sessions: give their keys an entry among the local sessions, so that a store loop that looks
+	// at the owner of a record before writing it treats them like any other (a fence the loop drops
+	// would end every check as "inconclusive" instead of showing what the loop did to real records).
+	for _, k := range []string{vfMqFenceKey, vfMqFillerKey} {
+		r.broker.sessMgr.sessionMap.Store(k, &Session{done: make(chan struct{})})
+	}
 	return r, nil
 }
 
 // Close ends the broker and every raw client and joins the reader goroutines.
 func (r *vfMqRig) Close() {
+	if r.DiscGate != nil {
+		r.DiscGate.releaseAll()
+	}
 	r.store.release()
 	// stop the retransmission loops of the sessions that are still registered
 	var ids []string
